@@ -5,16 +5,3 @@ cd "$(dirname "$0")"
 cmp -s _CoqProject.new _CoqProject || { mv _CoqProject.new _CoqProject; coq_makefile -f _CoqProject -o Makefile >/dev/null; }
 rm -f _CoqProject.new
 [ -f Makefile ] || coq_makefile -f _CoqProject -o Makefile >/dev/null
-{
- echo '(* GENERATED by coq/gen.sh from extract.d/*.txt.  ExtrOcamlBasic only: bool, option, list, prod, unit, sumbool map to'
- echo '   OCaml types; N, Z, positive, nat, ascii, byte, string stay Coq inductives.  No Extract Constant / Extract Inductive of our own.'
- echo '   Run from the output directory:  coqc -R /verif/coq TV /verif/coq/Extract.v *)'
- echo 'Require Extraction.'
- echo 'Require Import ExtrOcamlBasic.'
- echo "Require Import $(cat extract.d/*.txt | grep '^require' | sed 's/^require//' | tr ' ' '\n' | grep -v '^$' | sort -u | tr '\n' ' ')."
- echo 'Separate Extraction'
- cat extract.d/*.txt | grep -v '^#' | grep -v '^require' | grep -v '^$' | sort -u | sed 's/^/  /'
- echo '.'
-} > Extract.v.new
-cmp -s Extract.v.new Extract.v || mv Extract.v.new Extract.v
-rm -f Extract.v.new
